@@ -42,7 +42,13 @@ CallsForFoo == <<DCall("all_d", DPath(<<"x">>), <<"::z::Last", "::a::First", "Cl
                  DCall("for_d", DPath(<<"m", "Foo">>), <<"::d::F1", "::d::F0">>, TRUE), DCall("for_d", DPath(<<"m", "Goo">>), <<"::d::G1">>, FALSE),
                  DCall("for_a", DPath(<<"m", "h", "Hoo">>), <<"#[h1]", "#[h0]">>, TRUE), DCall("for_d", DPath(<<"m", "Foo">>), <<"::d::F2", "::e::F2", "F2">>, FALSE),
                  DCall("for_d", DPath(<<"m", "Foo1">>), <<"::d::F1", "::d::F0", "::d::E">>, TRUE), DCall("for_a", DPath(<<"m", "Goo2">>), <<"#[g2]", "#[g1]">>, FALSE),
-                 DCall("for_d", DPath(<<"m", "L">>), <<"::d::L2", "::d::L1">>, TRUE), DCall("for_a", DPath(<<"m", "h", "Hoo1">>), <<"#[k]">>, TRUE)>>
+                 DCall("for_d", DPath(<<"m", "L">>), <<"::d::L2", "::d::L1">>, TRUE), DCall("for_a", DPath(<<"m", "h", "Hoo1">>), <<"#[k]">>, TRUE),
+                 \* paths that occur in no registry, some registered both specifically and recursively: the validation error has one entry per path
+                 DCall("for_d", DPath(<<"zz", "Gamma">>), <<"Clone">>, FALSE), DCall("for_d", DPath(<<"aa", "Alpha">>), <<"::d::A1">>, FALSE),
+                 DCall("for_d", DPath(<<"zz", "Gamma">>), <<"Debug">>, TRUE), DCall("for_d", DPath(<<"mm", "Beta">>), <<"::d::B1">>, FALSE),
+                 DCall("for_a", DPath(<<"aa", "Alpha">>), <<"#[a1]">>, TRUE), DCall("for_d", DPath(<<"kk", "Delta">>), <<"::d::D1">>, TRUE),
+                 DCall("for_d", DPath(<<"kk", "Delta">>), <<"::d::D2">>, FALSE), DCall("for_d", DPath(<<"bb", "Eps">>), <<"::d::E1">>, FALSE),
+                 DCall("for_a", DPath(<<"aa", "Alpha">>), <<"#[a2]">>, FALSE), DCall("for_d", DPath(<<"yy", "Zeta">>), <<"::d::Z1">>, TRUE)>>
 SubsFor(reg) == IF \E i \in DOMAIN reg : reg[i].path = <<"m", "R">> THEN <<LsbRule, MapRule>> ELSE <<Rule(TPath(FALSE, <<"m", "Foo1">>, <<>>), Ext("F1", <<>>)), Rule(TPath(FALSE, <<"m", "Bar">>, <<>>), Ext("B", <<>>))>>
 CallsOf(reg) == IF \E i \in DOMAIN reg : reg[i].path = <<"m", "R">> THEN CallsFor8 ELSE CallsForFoo
 SettingsOrders(reg) == [k \in 1..4 |-> [DeriveBase EXCEPT !.derive_calls = Reorder(CallsOf(reg), Perms(Len(CallsOf(reg)))[k]),
